@@ -28,6 +28,7 @@ RULE = (
     "exact widths whose concatenation interleaved with permitted delimiters (final optional) equals the input; "
     "inputs of the well-formed language must be accepted with exactly their records. Non-trivial: the input "
     "contains CR/LF or yields >= 2 rows; enumerated cases are distinct by construction, generated ones by hash."
+    "A second reading of the same characters advances in turn with the judged one. Declared encodings include EBCDIC code pages; sources include a spooled temporary file."
 )
 ASSUMPTIONS = [
     "streams are opened with newline='' (no newline translation by the caller)",
